@@ -125,10 +125,15 @@ def impl_time(case):
             "get_date_type_respin": CI.get_date_type_respin,
             "parse_uid": MO.Modules.parse_uid,
             "create_release_id": lambda s: C.create_release_id(s, s, s),
+            "treeinfo_build_timestamp": lambda s: _load_treeinfo(ts=s),
+            "treeinfo_release_version": lambda s: _load_treeinfo(version=s),
+            "treeinfo_tree_arch": lambda s: _load_treeinfo(arch=s),
+            "discinfo_disc_numbers": lambda s: _load_discinfo(nums=s),
+            "discinfo_timestamp": lambda s: _load_discinfo(ts=s),
         }
         try:
-            table[fn](case["s"])
-        except (ValueError, TypeError, AttributeError, KeyError, IndexError):
+            table[fn](case["s"].replace("\n", " ").replace("%", "_") if fn.startswith(("treeinfo_", "discinfo_")) else case["s"])
+        except Exception:                   # what is measured is the time, whatever the outcome
             pass
     else:
         re.match(case["pattern"], case["s"])
@@ -136,7 +141,46 @@ def impl_time(case):
 
 
 FUNCTIONS = ["is_valid_release_short", "is_valid_release_version", "is_valid_release_type", "parse_nvra",
-             "parse_release_id", "split_version", "verify_label", "get_date_type_respin", "parse_uid", "create_release_id"]
+             "parse_release_id", "split_version", "verify_label", "get_date_type_respin", "parse_uid", "create_release_id",
+             # whole-document readers with the pumped string in one field
+             "treeinfo_build_timestamp", "treeinfo_release_version", "treeinfo_tree_arch", "discinfo_disc_numbers", "discinfo_timestamp"]
+
+TI_TEXT = """[header]
+type = productmd.treeinfo
+version = 1.2
+
+[release]
+name = Fedora
+short = Fedora
+version = %(version)s
+
+[tree]
+arch = %(arch)s
+build_timestamp = %(ts)s
+platforms = x86_64
+variants = Server
+
+[variant-Server]
+id = Server
+name = Server
+type = variant
+uid = Server
+
+[images-p-%(arch)s]
+kernel = images/vmlinuz
+"""
+
+
+def _load_treeinfo(**kw):
+    import productmd.treeinfo as TI
+    d = {"version": "22", "arch": "x86_64", "ts": "1440000000"}
+    d.update(kw)
+    TI.TreeInfo().loads(TI_TEXT % d)
+
+
+def _load_discinfo(ts="1440000000.5", nums="ALL"):
+    import productmd.discinfo as DI
+    DI.DiscInfo().loads("%s\nFedora 22\nx86_64\n%s\n" % (ts, nums))
 
 
 def class_reps(pattern):
